@@ -48,13 +48,16 @@ def fast_body(name, pids):
         if os.path.exists(ep):
             saved[ep] = open(ep).read()
     caught = False
+    res = {}
     try:
         rc, out = run("git -C /repo apply %s" % os.path.join(dst, "patch.diff"))
         if rc != 0:
             print("patch does not apply to /repo:", out); sys.exit(5)
         for pid in pids:
             rc, out = run("./rv check %s --tier quick" % pid, cwd=V)
-            print(pid, rc, [l for l in out.split("\n") if l.startswith("VIOLATION")][:1])
+            vl = [l for l in out.split("\n") if l.startswith("VIOLATION")]
+            print(pid, rc, vl[:1])
+            res[pid] = {"exit": rc, "lines": vl[:3] + ["re-run with --fast after the checks were strengthened"]}
             caught = caught or rc == 1
     finally:
         run("git -C /repo checkout -- .")
@@ -62,8 +65,7 @@ def fast_body(name, pids):
             open(ep, "w").write(txt)
     meta["caught"] = caught
     meta.setdefault("our_checks", {})
-    for pid in pids:
-        meta["our_checks"][pid] = {"exit": 1 if caught else 0, "lines": ["re-run with --fast after the checks were strengthened"]}
+    meta["our_checks"].update(res)
     json.dump(meta, open(os.path.join(dst, "meta.json"), "w"), indent=1)
     print("CAUGHT" if caught else "MISSED")
 
